@@ -15,7 +15,14 @@ Record run := mkRun {
   r_pub : list (item * bytes);      (* public projection of each stored item (public key / certificate DER) *)
   r_shown : list bytes;             (* per instance, in the order of r_insts: what a client of THAT instance was shown in a
                                        real handshake (SSH host key, TLS leaf certificate, agent public key); [] = nothing *)
-  r_bad : list item                 (* stored items the real libraries reject (parse, Validate, X509KeyPair with the stored key) *)
+  r_bad : list item;                (* stored items the real libraries reject (parse, Validate, X509KeyPair with the stored key) *)
+  r_lock : bool;                    (* INPUT: the store's directory lock is held by another process while this start is
+                                       attempted (an earlier start still running, or a foreign flock) *)
+  r_failed : bool;                  (* the process ended without completing the start (all other observations are void) *)
+  r_chans : list N;                 (* configured capture channels *)
+  r_filters : list filt;            (* the [[filter]] sections, in order *)
+  r_deliv : list (N * list (N * bytes))
+                                    (* per probe event category: (channel, token field at arrival) in arrival order *)
 }.
 
 (* services enabled: one load-or-generate call per instance *)
@@ -80,6 +87,10 @@ Fixpoint agrees (d : disk) (rs : list run) : bool :=
       && disk_eqb d' (r_disk r)
       && forallb (fun iv => obytes_eqb (kv_get (d_kv (r_disk r)) (fst iv)) (Some (snd iv)))
                  (id_items (ident f d (r_cfg r)))
+      (* every probe event arrives on exactly the wired channels, with the token in use *)
+      && forallb (fun cd => list_eqb (fun a b => (fst a =? fst b)%N && eqb_bytes (snd a) (snd b))
+                                     (deliver (r_token r) [] (wire (r_chans r) (r_filters r)) (fst cd)) (snd cd))
+                 (r_deliv r)
       (* every instance presents what the constructors' cells hold *)
       && list_eqb eqb_bytes (presented (stored_of r) (r_insts r)) (r_shown r)
       (* a token the model generates is xid.New().String(): the observed one must have that shape *)
@@ -87,10 +98,14 @@ Fixpoint agrees (d : disk) (rs : list run) : bool :=
       && agrees d' rest
   end.
 
-Definition model_agrees := agrees.
+(* a start fails exactly when the directory lock is held elsewhere, and then changes
+   nothing (C18_failed_starts_change_nothing): the model runs over the completed starts *)
+Definition ok_runs (c : case) : list run := filter (fun r => negb (r_failed r)) (c_runs c).
+Definition lock_ok (rs : list run) : bool := forallb (fun r => Bool.eqb (r_failed r) (r_lock r)) rs.
+Definition model_agrees (c : case) : bool := lock_ok (c_runs c) && agrees (c_disk0 c) (ok_runs c).
 
 Definition mismatches (cs : list case) : list N :=
-  map c_id (filter (fun c => negb (model_agrees (c_disk0 c) (c_runs c))) cs).
+  map c_id (filter (fun c => negb (model_agrees c)) cs).
 
 (* ---- the property, judged on the observations alone ---- *)
 Definition SIG_TOKEN_MALFORMED := 1%N.     (* a start (after an interrupted start, on a legacy empty/cut-short token file, ...) uses a
@@ -99,6 +114,8 @@ Definition SIG_TOKEN_CHANGED := 2%N.       (* the token differs between starts (
 Definition SIG_TOKEN_NOT_PERSISTED := 3%N. (* the token in use is not what the token file holds afterwards *)
 Definition SIG_ITEM_CHANGED := 4%N.        (* a stored or client-visible key/certificate changed or disappeared *)
 Definition SIG_ITEM_MALFORMED := 5%N.      (* a stored item is rejected by its library, or a certificate without/not matching its key *)
+Definition SIG_DELIVERY := 7%N.            (* an event reached a channel without (or with another than) the sensor's token, or did
+                                              not reach a channel a filter wires it to *)
 Definition SIG_NOT_PRESENTED := 6%N.       (* a service instance did not present the persisted identity to its client (or, given an
                                               operator key, not that key; or somebody else presented the operator key) *)
 
@@ -165,8 +182,15 @@ Definition presents_ok (r : run) : bool :=
   && forallb (fun b => match b with [] => false | _ => true end) (r_shown r)
   && list_eqb eqb_bytes (map (presented_spec (stored_of r)) (r_insts r)) (r_shown r).
 
+(* every delivery of every probe event carries the token of the FIRST completed start, and
+   the deliveries are those the filters wire *)
+Definition deliveries_ok (tok0 : bytes) (r : run) : bool :=
+  forallb (fun cd => list_eqb (fun a b => (fst a =? fst b)%N && eqb_bytes (snd a) (snd b))
+                              (deliver tok0 [] (wire (r_chans r) (r_filters r)) (fst cd)) (snd cd))
+          (r_deliv r).
+
 Definition case_sigs (c : case) : list N :=
-  let rs := c_runs c in
+  let rs := ok_runs c in
   (if tokens_wf rs then [] else [SIG_TOKEN_MALFORMED])
   ++ (if tokens_same rs then [] else [SIG_TOKEN_CHANGED])
   ++ (if tokens_persisted rs then [] else [SIG_TOKEN_NOT_PERSISTED])
@@ -174,14 +198,16 @@ Definition case_sigs (c : case) : list N :=
       then [] else [SIG_ITEM_CHANGED])
   ++ (if kv_shape_ok (d_kv (c_disk0 c)) (c_bad0 c) && forallb (fun r => kv_shape_ok (d_kv (r_disk r)) (r_bad r)) rs
       then [] else [SIG_ITEM_MALFORMED])
-  ++ (if forallb presents_ok rs then [] else [SIG_NOT_PRESENTED]).
+  ++ (if forallb presents_ok rs then [] else [SIG_NOT_PRESENTED])
+  ++ (if match rs with [] => true | r0 :: _ => forallb (deliveries_ok (r_token r0)) rs end then [] else [SIG_DELIVERY]).
 
 Definition violations (cs : list case) : list (N * N) :=
   flat_map (fun c => map (fun s => (c_id c, s)) (case_sigs c)) cs.
 
 (* tags: 1 + 2*[token file present at first] + 4*[items present at first] + 8*[more than two starts]
    + 16*[some start enabled a service] + 32*[some start has two instances sharing one stored identity]
-   + 64*[some start has an instance with an operator key]; never 0: every case is a restart history *)
+   + 64*[some start has an instance with an operator key] + 128*[some start is attempted while the lock is held]
+   + 256*[some channel is named by two or more filters]; never 0: every case is a restart history *)
 Definition tags (cs : list case) : list (N * N) :=
   map (fun c => (c_id c,
     1 + (match d_token (c_disk0 c) with Some _ => 2 | None => 0 end)
@@ -190,4 +216,7 @@ Definition tags (cs : list case) : list (N * N) :=
       + (if existsb (fun r => match r_cfg r with [] => false | _ => true end) (c_runs c) then 16 else 0)
       + (if existsb (fun r => negb (length (nodup N.eq_dec (map (fun i => item_code (shown_item (i_kind i))) (r_insts r)))
                                     =? length (r_insts r))%nat) (c_runs c) then 32 else 0)
-      + (if existsb (fun r => existsb has_opkey (r_insts r)) (c_runs c) then 64 else 0))%N) cs.
+      + (if existsb (fun r => existsb has_opkey (r_insts r)) (c_runs c) then 64 else 0)
+      + (if existsb r_lock (c_runs c) then 128 else 0)
+      + (if existsb (fun r => negb (length (nodup N.eq_dec (flat_map fl_chans (r_filters r)))
+                                    =? length (flat_map fl_chans (r_filters r)))%nat) (c_runs c) then 256 else 0))%N) cs.
